@@ -227,6 +227,11 @@ def x86(ex, b, rty, args):
             inr = z3.And(z3.Not(z3.fpIsNaN(v.fp)), z3.fpLT(z3.fpRoundToIntegral(rm, v.fp), z3.FPVal(2.0 ** 31, F)), z3.fpGEQ(z3.fpRoundToIntegral(rm, v.fp), z3.FPVal(-2.0 ** 31, F)))
             out.append(z3.If(inr, z3.fpToSBV(rm, v.fp, z3.BitVecSort(32)), bv(0x80000000, 32)))
         return out
+    m_ = re.fullmatch(r'x86\.sse2?\.u?comi(eq|lt|le|gt|ge|neq)\.s[sd]', b)
+    if m_:
+        x, y = args[0][0].fp, args[1][0].fp; uno = z3.Or(z3.fpIsNaN(x), z3.fpIsNaN(y))
+        c = {'eq': z3.And(z3.Not(uno), z3.fpEQ(x, y)), 'lt': z3.fpLT(x, y), 'le': z3.fpLEQ(x, y), 'gt': z3.fpGT(x, y), 'ge': z3.fpGEQ(x, y), 'neq': z3.Or(uno, z3.Not(z3.fpEQ(x, y)))}[m_.group(1)]
+        return z3.If(c, bv(1, 32), bv(0, 32))
     if b in ('x86.sse3.hadd.ps', 'x86.sse3.hsub.ps'):
         f = z3.fpAdd if 'hadd' in b else z3.fpSub; x, y = args[0], args[1]
         return [FV(32, fp=f(RNE, x[0].fp, x[1].fp)), FV(32, fp=f(RNE, x[2].fp, x[3].fp)), FV(32, fp=f(RNE, y[0].fp, y[1].fp)), FV(32, fp=f(RNE, y[2].fp, y[3].fp))]
